@@ -311,6 +311,11 @@ func (P *Program) ghostVar(name string) *SpecFun {
 	if f := P.specFuns[name]; f != nil && f.IsVar {
 		return f
 	}
+	if i := strings.LastIndex(name, "."); i > 0 { // pkg.name: ghost names are global
+		if f := P.specFuns[name[i+1:]]; f != nil && f.IsVar {
+			return f
+		}
+	}
 	return nil
 }
 
